@@ -63,15 +63,23 @@ def make_consistency(fmt):
         finding)"""
         from cutplace import data, errors
         df = data.DataFormat(fmt)
+        defaults = data.DataFormat(fmt)
+
+        def put(key, text, internal):
+            # a value equal to the documented default is left unset (the CID simply does not mention the property)
+            if getattr(defaults, "_" + key) != internal:
+                df.set_property(key, text)
+
         try:
             if fmt == "delimited":
-                df.set_property(data.KEY_ITEM_DELIMITER, str(ord(args["item"])))
-                df.set_property(data.KEY_QUOTE_CHARACTER, args["quote"])
-                df.set_property(data.KEY_ESCAPE_CHARACTER, '"' if args["esc_is_quote"] else "\\")
+                put(data.KEY_ITEM_DELIMITER, str(ord(args["item"])), args["item"])
+                put(data.KEY_QUOTE_CHARACTER, args["quote"], args["quote"])
+                esc = '"' if args["esc_is_quote"] else "\\"
+                put(data.KEY_ESCAPE_CHARACTER, esc, esc)
             if fmt in ("delimited", "fixed"):
-                df.set_property(data.KEY_LINE_DELIMITER, {0: "any", 1: "lf", 2: "cr", 3: "crlf"}[args["line"]])
-                df.set_property(data.KEY_DECIMAL_SEPARATOR, "," if args["dec_comma"] else ".")
-                df.set_property(data.KEY_THOUSANDS_SEPARATOR, (",", ".", "")[args["thousands"]])
+                put(data.KEY_LINE_DELIMITER, {0: "any", 1: "lf", 2: "cr", 3: "crlf"}[args["line"]], LINE[args["line"]])
+                put(data.KEY_DECIMAL_SEPARATOR, "," if args["dec_comma"] else ".", "," if args["dec_comma"] else ".")
+                put(data.KEY_THOUSANDS_SEPARATOR, (",", ".", "")[args["thousands"]], (",", ".", "")[args["thousands"]])
         except errors.InterfaceError as e:
             return False, "state not reachable through set_property: %s" % e, "consistency"
         dec = "," if args["dec_comma"] else "."
